@@ -404,10 +404,10 @@ def check_c08(tier, seed):
     run_batch(out, "random-chunked", "A", hs2)
     # through one long-lived handle (window filled before the shrink), judged by the handle model
     from . import hgens
-    run_batch(out, "handle", "A", hgens.c08_handle_histories(tier), spec="Trace_Handle", driver="hdrive")
+    run_batch(out, "handle", "A", hgens.c08_handle_histories(tier) + hgens.setlen_within_unit_histories(tier), spec="Trace_Handle", driver="hdrive")
     return finish(out, "model_checking",
                   "CfbTree.SetLen extends with a zero run; all writes use fresh non-zero fill bytes so stale data is a mismatch in api / Abs(img) / reopen dumps. "
-                  "T1 write-shrink-grow triples, T2 reuse after remove/shrink (with/without pinned mini-stream tail), T3 across migrations",
+                  "T1 write-shrink-grow triples, T2 reuse after remove/shrink (with/without pinned mini-stream tail), T3 across migrations, T4 cut and growth inside the same final (mini) sector (file level and through one handle)",
                   FILE_ASSUME)
 
 
